@@ -2,6 +2,7 @@ import FlowRecord.Model.DateTime
 import FlowRecord.Model.Base64
 import FlowRecord.Gen.Base
 import FlowRecord.Gen.Formats
+import FlowRecord.Gen.Record
 /-!
 C14: the JSON lines adapter. Transcribes `JsonRecordPacker.pack_obj` as `json.dumps(default=...)` applies it
 (`toJson`, `descLine`), `JsonRecordPacker.unpack_obj` + the record constructor's coercions (`readLine`), the
@@ -107,6 +108,11 @@ def reservedFields : List (Text × Text) := Gen.RESERVED_FIELDS.map fun p => (cp
 def allFields (d : Desc) : List (Text × Text) := d.fields ++ reservedFields
 
 def slotNames (d : Desc) : List Text := (allFields d).map (·.2)
+
+/-- A declared field named like a Python keyword makes `RecordDescriptor` generate the `*args, **kwargs`
+    constructor, which assigns every slot as given: an unset list or digest field then stays `None` instead of
+    becoming `[]` / an empty digest. -/
+def kwInit (d : Desc) : Bool := d.fields.any fun f => (Gen.pyKeywords.map cps).contains f.2
 
 /-- A record: descriptor plus one value per slot (reserved slots last: `_source`, `_classification`,
     `_generated`, `_version`). -/
@@ -264,12 +270,14 @@ def decElems (L : LibLaws) (st : ST) (b64 : Bool) : List JVal → Except Err (Li
 def b64Types : List Text := Gen.jsonUnpackB64.map fun p => cps p.1
 
 /-- One slot: the JSON value found under the slot's name (`none`: key absent), coerced to the slot's type.
-    An absent or `null` value is the type's default: unset, `[]` for lists, an empty digest. -/
-def decField (L : LibLaws) (ty : Text) (j : Option JVal) : Except Err FV :=
+    An absent or `null` value is the type's default: unset, `[]` for lists, an empty digest — or plainly unset for
+    every type when the record class uses the keyword-tolerant constructor (`kw`). -/
+def decField (L : LibLaws) (kw : Bool) (ty : Text) (j : Option JVal) : Except Err FV :=
   match parseType ty with
   | none => .error .unsupportedType
   | some (st, isList) =>
-    let dflt : FV := if isList then .list [] else if st = .digest then .one (.digest none none none) else .none
+    let dflt : FV :=
+      if kw then .none else if isList then .list [] else if st = .digest then .one (.digest none none none) else .none
     match j with
     | none => .ok dflt
     | some .null => .ok dflt
@@ -280,10 +288,10 @@ def decField (L : LibLaws) (ty : Text) (j : Option JVal) : Except Err FV :=
         | _ => .error .typeError
       else (decElem L st (decide (ty ∈ b64Types)) v).map FV.one
 
-def decSlots (L : LibLaws) (kvs : List (Text × JVal)) : List (Text × Text) → Except Err (List FV)
+def decSlots (L : LibLaws) (kw : Bool) (kvs : List (Text × JVal)) : List (Text × Text) → Except Err (List FV)
   | [] => .ok []
   | (ty, nm) :: fs =>
-    match decField L ty (lookupT nm kvs), decSlots L kvs fs with
+    match decField L kw ty (lookupT nm kvs), decSlots L kw kvs fs with
     | .ok v, .ok vs => .ok (v :: vs)
     | .error e, _ => .error e
     | _, .error e => .error e
@@ -294,7 +302,7 @@ def dropKeys (ks : List Text) (kvs : List (Text × JVal)) : List (Text × JVal) 
     `_version` is always set to RECORD_VERSION whatever the line says. -/
 def construct (L : LibLaws) (d : Desc) (kvs : List (Text × JVal)) : Except Err Rec :=
   if kvs.all (fun p => (slotNames d).contains p.1) then
-    match decSlots L kvs (allFields d) with
+    match decSlots L (kwInit d) kvs (allFields d) with
     | .error e => .error e
     | .ok vals =>
       match lookupT (cps "_generated") kvs with
